@@ -76,11 +76,13 @@ Print Assumptions C13_spans_sound_any_input.
 
 Theorem C13_error_span_sound_any_input :
   forall s sp, parse_with repaired s = Err sp ->
-    exists pre rest, s = append pre rest /\ sp = from_machine (mkin rest (adv_str pre pos0)).
+    exists pre rest, s = append pre rest /\ rest <> EmptyString
+                     /\ sp = from_machine (mkin rest (adv_str pre pos0)).
 Proof. exact parse_error_sound. Qed.
 Check C13_error_span_sound_any_input :
   forall s sp, parse_with repaired s = Err sp ->
-    exists pre rest, s = append pre rest /\ sp = from_machine (mkin rest (adv_str pre pos0)).
+    exists pre rest, s = append pre rest /\ rest <> EmptyString
+                     /\ sp = from_machine (mkin rest (adv_str pre pos0)).
 Print Assumptions C13_error_span_sound_any_input.
 
 (** ... and the lexer with both resets (parse.rs before the repair 10a4ba7) violates it: after the
